@@ -45,7 +45,7 @@ Proof. reflexivity. Qed.
 Theorem agree_is_spec_c02_run ops : forall st s,
   sinv st -> (forall ds, feed_of (get_ds st ds) = sget s ds) ->
   Forall wf_sop ops ->
-  agree_run v_fixed proj_c02 st ops = spec_run proj_c02 s ops.
+  agree_run v_fixed false proj_c02 st ops = spec_run proj_c02 s ops.
 Proof.
   induction ops as [|o ops IH]; intros st s Hinv Habs Hwf; [reflexivity|].
   inversion Hwf as [|? ? Ho Hops]; subst.
@@ -72,7 +72,7 @@ Proof.
 Qed.
 
 Theorem agree_is_spec_c02 c :
-  Forall wf_sop c -> agree v_fixed proj_c02 c = spec_ok proj_c02 c.
+  Forall wf_sop c -> agree v_fixed false proj_c02 c = spec_ok proj_c02 c.
 Proof.
   intros Hwf. unfold agree, spec_ok. apply agree_is_spec_c02_run; [apply sinv0 | | exact Hwf].
   intros ds. reflexivity.
